@@ -229,6 +229,17 @@ def partition_problem(
         subobservables_by_subsystem = decompose_observables(
             observables, partition_labels
         )
+        # Idle qubits (label ``None``) belong to no subcircuit.  An identity
+        # acting on them can simply be dropped; anything else cannot be
+        # represented by the returned subcircuits.
+        idle_observables = subobservables_by_subsystem.pop(None, None)
+        if idle_observables is not None and (
+            idle_observables.x.any() or idle_observables.z.any()
+        ):
+            raise ValueError(
+                "An input observable acts non-trivially on a qubit which is idle "
+                "(partition label `None`) and is therefore removed from the subcircuits."
+            )
 
     return PartitionedCuttingProblem(
         separated_circs.subcircuits,  # type: ignore
